@@ -209,6 +209,12 @@ def r4_futures_observed(ctx):
                 collected = par.func.value.id
             elif isinstance(par, ast.Assign) and isinstance(par.targets[0], ast.Name):
                 collected = par.targets[0].id
+            elif isinstance(par, (ast.ListComp, ast.SetComp, ast.GeneratorExp)) and par.elt is s:
+                gp = getattr(par, '_parent', None)
+                if isinstance(gp, ast.Call) and dotted(gp.func) in ('list', 'tuple', 'set') and len(gp.args) == 1:
+                    gp = getattr(gp, '_parent', None)
+                if isinstance(gp, ast.Assign) and isinstance(gp.targets[0], ast.Name):
+                    collected = gp.targets[0].id
             ok = False
             for r in results:
                 loop = None
